@@ -24,7 +24,7 @@ package casket
 //@   loop 3 invariant inOuter() && storOK() && 1 <= #i2 && #i2 <= len(sblocks) && has(storages, #i2 - 1) && i == #i2 - 1
 //@   loop 4 invariant inOuter() && storOK()
 
-//@ unit lifecycle props=C16 filter=`casket\.startWithListenerFds$|Instance\)\.ShutdownCallbacks$`
+//@ unit lifecycle props=C16,C08 filter=`casket\.startWithListenerFds$|casket\.startWithListenerFds\$1$|Instance\)\.ShutdownCallbacks$`
 //@ ghost nShutdown int
 //@ ghost nFinal int
 //@ ghost shutdownDone int
@@ -50,8 +50,20 @@ package casket
 //@ func ValidateAndExecuteDirectives
 //@   requires inst != nil
 
+//@ // the deferred clean-up: a failed start takes the instance out of the process-wide list again (C08)
+//@ func startWithListenerFds$1
+//@   requires exists(k, 0, len(instances), instances[k] == inst)
+//@   modifies G:github.com/tmpim/casket.instances, E:*github.com/tmpim/casket.Instance
+//@   ensures [lock_balance] held(instancesMu) == old(held(instancesMu))
+//@   ensures [removes_one_on_failure] err != nil ==> len(instances) == old(len(instances)) - 1
+//@   ensures [keeps_on_success] err == nil ==> instances == old(instances)
+//@   loop 1 invariant 0 <= #i && #i <= len(instances) && instances == old(instances) && forall(k, 0, #i, instances[k] != inst) && held(instancesMu) == old(held(instancesMu)) + 1
 //@ func startWithListenerFds
 //@   requires inst != nil && nFirst == 0 && nStartup == 0 && serversStarted == 0
+//@   modifies G:github.com/tmpim/casket.instances, E:*github.com/tmpim/casket.Instance
+//@   ensures [failed_start_leaves_no_instance] result != nil ==> len(instances) == old(len(instances))
+//@   ensures [successful_start_registers_instance] result == nil ==> len(instances) == old(len(instances)) + 1
+//@   ensures [lock_balance] held(instancesMu) == old(held(instancesMu))
 //@   at call dynamic#1 assert [first_only_on_fresh_start] restartFds == nil && !IsUpgrade()
 //@   at call dynamic#1 assert [first_before_startup] nStartup == 0 && serversStarted == 0
 //@   at call dynamic#1 do nFirst = nFirst + 1
